@@ -47,3 +47,8 @@ pub(crate) use sparsevector::*;
 //configure tests of internals
 #[cfg(test)]
 mod tests;
+
+// verification hooks (add-only, off unless feature `verif-hooks` is enabled):
+// the dense module is private, its hook module is re-exported here
+#[cfg(all(feature = "verif-hooks", feature = "sdp"))]
+pub use dense::verif_hooks_dense;
